@@ -75,6 +75,13 @@ func (c *RawHTTPResponder) GetHeaders() http.Header {
 }
 
 func (c *RawHTTPResponder) writeResponse() error {
+	// 1xx, 204 and 304 responses never have a body: no framing at all, or the terminating chunk of an
+	// "unknown length" body would be read by the client as the start of the next response.
+	if s := c.response.StatusCode; (s >= 100 && s < 200) || s == http.StatusNoContent || s == http.StatusNotModified {
+		c.response.Body = http.NoBody
+		c.response.ContentLength = 0
+	}
+
 	// If Content-Length is unknown, we must either use chunked encoding or close the connection.
 	if c.response.ContentLength < 0 {
 		c.response.TransferEncoding = []string{"chunked"}
